@@ -486,28 +486,32 @@ class IPAddr6 (_AddrBase):
           raise RuntimeError('Bad address format')
         addr += ':0:0'
 
-      segs = addr.split(':')
-      if addr.count('::') > 1:
-        raise RuntimeError("Bad address format " + str(addr))
-      if len(segs) < 3 or len(segs) > 8:
+      if addr.count('::') > 1 or ':::' in addr:
         raise RuntimeError("Bad address format " + str(addr))
 
-      # Parse the two "sides" of the address (left and right of the optional
-      # dropped section)
-      p = ([],[])
-      side = 0
-      for i,s in enumerate(segs):
-        if len(s) == 0:
-          #if side != 0:
-            #if i != len(segs)-1:
-            #  raise RuntimeError("Bad address format " + str(addr))
-          side = 1
-          continue
-        s = int(s,16)
-        if s < 0 or s > 0xffff:
-          # Each chunk must be at most 16 bits!
+      # Split into the two "sides" of the address (left and right of the
+      # optional dropped section)
+      if '::' in addr:
+        segs = [x.split(':') if x else [] for x in addr.split('::')]
+        # The dropped section stands for at least one chunk
+        if len(segs[0]) + len(segs[1]) > 7:
           raise RuntimeError("Bad address format " + str(addr))
-        p[side].append(s)
+      else:
+        segs = [addr.split(':'), []]
+        if len(segs[0]) != 8:
+          raise RuntimeError("Bad address format " + str(addr))
+
+      p = ([],[])
+      for side in (0,1):
+        for s in segs[side]:
+          if len(s) == 0:
+            # Only the dropped section may be empty
+            raise RuntimeError("Bad address format " + str(addr))
+          s = int(s,16)
+          if s < 0 or s > 0xffff:
+            # Each chunk must be at most 16 bits!
+            raise RuntimeError("Bad address format " + str(addr))
+          p[side].append(s)
 
       # Add the zeroes (if any) between the sides
       o = p[0] + ([0] * (8-len(p[0])-len(p[1]))) + p[1]
